@@ -339,9 +339,12 @@ def _check_validated_store(run, w, field, value_pred):
         else:
             # whole struct stored: each validated argument is the same-named field of the stored struct
             bad = None
+            sv = strip(val)
+            lit = dict(sv[3]) if sv[0] == "agg" else None    # a struct literal stored directly: its fields are what is stored
             for i, nme in enumerate(names[1:], start=1):
                 a = strip(args[i])
-                if not (a[0] == "field" and a[2] == nme and same(a[1], val)):
+                good = (lit is not None and nme in lit and same(a, lit[nme])) if lit is not None else (a[0] == "field" and a[2] == nme and same(a[1], val))
+                if not good:
                     bad = "argument %d (%s) is %s, not %s.%s" % (i, nme, sh(a, 60), sh(val, 40), nme)
                     break
             if bad:
